@@ -1,5 +1,6 @@
 (** C08 — --json prints well-formed strings that decode to the part's text.  Statements only. *)
-From TucModel Require Import Base.Bytes Model.Json Spec.JsonSpec Proofs.C08.
+From TucModel Require Import Base.Bytes Model.Bounds Model.BoundsParse Model.Scan Model.Utf8 Model.Json Model.Opt
+     Model.CutStr Spec.JsonSpec Spec.Fields Spec.JsonArray Proofs.BoundsFacts Proofs.C08 Proofs.C08Array Proofs.C08Record Model.Args.
 
 (** every element the writer emits reads back, with a strict reader, as exactly the part's
     text - whatever quotes, backslashes or control characters it contains *)
@@ -11,6 +12,64 @@ Theorem C08_escape_roundtrip :
   forall s : bytes, json_unescape (flat_map json_escape_byte s) = Some s.
 Proof. exact json_unescape_escape. Qed.
 
+(** the line printed for a record - '[' e1 ',' e2 ... ']' - is read back by a strict one-pass
+    reader of JSON arrays of strings (no white space, nothing after ']') as exactly the list
+    of parts, in order, however many there are *)
+Theorem C08_array_roundtrip :
+  forall parts : list bytes, json_read_array (json_array_line parts) = Some parts.
+Proof. exact json_array_roundtrip. Qed.
+
+(** one element per part: with the option settings --json installs, for every bounds list
+    without format text (as the parser builds it, possibly complemented), whatever the
+    record's fields are, what the output loop prints between the brackets is the JSON
+    strings of [concat pss] separated by commas, where each requested bound contributes
+    [bound_elems]: a resolvable one, the text of every part it covers, one element each, in
+    order ([seq s (e-s)]); an unresolvable one, its fallback as one element *)
+Theorem C08_one_element_per_part :
+  forall (o : opt) (line : bytes) (fields : list mtch) (bs : list ubound) (l2 : list bof) (body : bytes),
+  json_opts o ->
+  Forall bound_nz bs -> unmarked_init bs -> set_last_flag bs = bs ->
+  (if needs_unpack (map Bound bs)
+   then option_map items (unpack_list (map Bound bs) (length fields))
+   else Some (map Bound bs)) = Some l2 ->
+  out_loop o line fields l2 = ROk body ->
+  exists pss, Forall2 (bound_elems o line fields) bs pss
+              /\ body = intercalate [ch_comma] (map json_string (concat pss)).
+Proof. intros o line fields bs l2 body Hj. exact (json_body o Hj line fields bs l2 body). Qed.
+
+(** a whole record through [cut_str] (every option of the general path: multi-byte -d, -g,
+    -p, -t, -s, -m, -z, -c, -e): the output is nothing (dropped by -s), or a bare EOL (only
+    when the record is empty, possibly after -t), or exactly one array line as above *)
+Theorem C08_record_is_one_array :
+  forall (o : opt) (rec out : bytes) (bs0 : list ubound),
+  json_opts o -> plain_bounds (items (o_bounds o)) bs0 ->
+  cut_str o rec = Some (ROk out) ->
+  (out = [] /\ o_only_delimited o = true)
+  \/ (out = [o_eol o] /\ (o_trim o = None -> rec = []))
+  \/ exists line fields bs pss,
+       (o_complement o = false -> bs = bs0)
+       /\ Forall2 (bound_elems o line fields) bs pss
+       /\ out = json_array_line (concat pss) ++ [o_eol o].
+Proof. exact C08_record. Qed.
+
+Theorem C08_nonempty_record_decodes :
+  forall (o : opt) (rec out : bytes) (bs0 : list ubound),
+  json_opts o -> plain_bounds (items (o_bounds o)) bs0 ->
+  o_trim o = None -> o_only_delimited o = false -> rec <> [] ->
+  cut_str o rec = Some (ROk out) ->
+  exists line fields bs pss,
+    (o_complement o = false -> bs = bs0)
+    /\ Forall2 (bound_elems o line fields) bs pss
+    /\ out = json_array_line (concat pss) ++ [o_eol o]
+    /\ json_read_array (json_array_line (concat pss)) = Some (concat pss).
+Proof. exact C08_record_decodes. Qed.
+
+(** the hypothesis on the bounds holds for everything the parser accepts without braces *)
+Theorem C08_parsed_bounds_are_plain :
+  forall (s : bytes) (u : ublist),
+  existsb is_brace s = false -> parse_ublist s = Some u -> exists bs, plain_bounds (items u) bs.
+Proof. exact parsed_plain_bounds. Qed.
+
 Example C08_nasty :
   json_string [34; 92; 0; 31; 127; 10]%N
   = [34; 92;34; 92;92; 92;117;48;48;48;48; 92;117;48;48;49;102; 127; 92;110; 34]%N.
@@ -18,3 +77,25 @@ Proof. reflexivity. Qed.
 
 Print Assumptions C08_element_roundtrip.
 Print Assumptions C08_escape_roundtrip.
+Print Assumptions C08_array_roundtrip.
+Print Assumptions C08_one_element_per_part.
+Print Assumptions C08_record_is_one_array.
+Print Assumptions C08_nonempty_record_decodes.
+Print Assumptions C08_parsed_bounds_are_plain.
+
+(** non-vacuity: a concrete record and option set meeting the hypotheses *)
+Example C08_array_example :
+  json_read_array [91; 34;97;34; 44; 34;92;34;34; 44; 34;34; 93]%N = Some [[97]; [34]; []]%N.
+Proof. reflexivity. Qed.
+
+(** tuc -d - --json -f 2:3,7=x on the record a-QUOTE-b-c-BACKSLASH (bytes 97 45 34 98 45 99 92): the options parse_args builds meet
+    [json_opts], the range gives two elements, the missing field 7 its fallback *)
+Example C08_record_example :
+  match parse_args [[45;100];[45];[45;45;106;115;111;110];[45;102];[50;58;51;44;55;61;120]]%N with
+  | POpt o =>
+      o_json o = true /\ o_join o = true /\ o_replace o = Some [ch_comma]
+      /\ cut_str o [97;45;34;98;45;99;92]%N
+         = Some (ROk (json_array_line [[34;98]; [99;92]; [120]]%N ++ [10%N]))
+  | _ => False
+  end.
+Proof. vm_compute. repeat split; reflexivity. Qed.
